@@ -187,9 +187,13 @@ def standin(run, prop, tier, seed):
     run.bounded = {"label": "bounded stand-in (never counted as proved)", "evaluations": out.get("evaluations"),
                    "bound": out.get("bound"), "violations": len(out.get("violations", []))}
     known = report.load_known(prop)
-    for v in out.get("violations", [])[:5]:
+    seen_clauses = set()
+    for v in out.get("violations", [])[:10]:
+        if v.get("clause") in seen_clauses:
+            continue
         if any(v.get("clause") in kf.get("clauses", [kf.get("clause")]) and kf.get("standin_region", "") and kf["standin_region"] in json.dumps(v) for kf in known):
             continue
+        seen_clauses.add(v.get("clause"))
         run.violation(f"standin:{v.get('clause')}", {"input": v.get("input"), "detail": v, "source": "bounded stand-in"}, True)
 
 
